@@ -18,7 +18,9 @@ IsListed(kf, k) == /\ Lists(kf)
                       \/ k = "listed-ecdsa" /\ kf = "several-keys"
 
 Bases == {<<>>, <<"--server">>, <<"--daemon">>, <<"--server", "--daemon">>, <<"--server", "--sender">>, <<"--server", "--daemon", "--sender">>}
-Extras == {<<>>, <<"-e CANARY">>, <<"--rsh=CANARY">>, <<"-a">>, <<"--version">>, <<"--help">>, <<"-e CANARY", "-a">>, <<"-a", "--version">>}
+Extras == {<<>>, <<"-e CANARY">>, <<"--rsh=CANARY">>, <<"-a">>, <<"--version">>, <<"--help">>, <<"-e CANARY", "-a">>, <<"-a", "--version">>,
+           \* options of the LISTENING daemon's own command line, sent by the peer: they must not reconfigure the session
+           <<"--gokr.modulemap=evil=OUTSIDE">>, <<"--gokr.config=OUTSIDE/evil.toml">>}
 PathArgs == {<<>>, <<".">>, <<".", "OUTSIDE">>, <<"host:path", "DROP">>, <<"OUTSIDE/", "DROP">>, <<"OUTSIDE/">>}
 Requests == {"exec", "shell", "env", "subsystem", "pty-req", "channel:direct-tcpip"}
 
